@@ -59,7 +59,7 @@ func (m *memStream) snapshot() (recvs, entered, got int) {
 }
 
 func probeUnbind() (reproduced bool, detail string, ok bool) {
-	fx, err := newFixture(0, true)
+	fx, err := newFixture(7, true) // index 7: a request from the same index is "in sync" (nothing to send)
 	if err != nil {
 		return false, "fixture: " + err.Error(), false
 	}
@@ -103,7 +103,7 @@ func probeUnbind() (reproduced bool, detail string, ok bool) {
 	change(1)
 	want := fx.leader.VerifNextIndex() // not yet advanced necessarily; wait for the record first
 	_ = want
-	if !waitFor(func() bool { return len(fx.notifier) == 0 && fx.leader.VerifNextIndex() >= 2 }) {
+	if !waitFor(func() bool { return len(fx.notifier) == 0 && fx.leader.VerifNextIndex() >= 9 }) {
 		return false, "the leader did not record the second change", false
 	}
 	deadline := time.Now().Add(1500 * time.Millisecond)
